@@ -12,6 +12,13 @@ package main
 //	login|loginfull|checkpw <u> <pw> <want>        ptt.LoginQuery | ptt.Login | ptt.CheckPasswd -> ok | refused | PANIC
 //	chpw <u> <old> <new> <num> <seed> <want>       ptt.ChangePasswd under rand.Seed(seed)  -> ok | refused | PANIC
 //	stored <u>                                     cmbbs.PasswdQueryPasswd                -> hash hex | refused
+//	blogin|bcheckpw <u> <pw> <want>                bbs.Login | bbs.CheckPasswd (the string-taking entry points)
+//	bchpw <u> <old> <new> <num> <seed> <want>      bbs.ChangePasswd
+//
+// The bbs layer must hand the password bytes to the check unchanged (white space, control bytes, NUL are password
+// bytes like any other): the model runs blogin/bcheckpw/bchpw exactly as login/checkpw/chpw.
+// Stored hashes are arbitrary 14-byte values (sethash): whatever the hash is, a candidate is accepted only if
+// crypt(candidate, hash) == hash; a panic / error is a refusal, never an acceptance.
 //
 // want = accept|reject|any is the verdict of the property from the harness's own bookkeeping (which plaintext the
 // stored hash was made from, compared by the effective DES key); the model ignores it.
@@ -22,7 +29,10 @@ package main
 //	login:current-password-refused  the password the stored hash was made from is refused
 //	login:disagrees-stored-hash     the answer differs from libc crypt(pw, h[:2]) == h for the well-formed hash h that
 //	                                PasswdQueryPasswd reads at that moment
-//	crash:login                     a panic / stall in any of these calls
+//	login:unverifiable-hash-accepted a candidate is accepted although the stored hash is one no password can produce
+//	chpw:record-changed-without-auth the stored hash changed although ChangePasswd did not succeed
+//	crash:login                     a panic / stall in any of these calls (not judged when the stored hash has a byte
+//	                                >= 0x80 in a salt position: Fcrypt panics there, outside the salt domain; recorded)
 
 import (
 	"bytes"
@@ -32,6 +42,7 @@ import (
 	"strconv"
 	"strings"
 
+	"github.com/Ptt-official-app/go-pttbbs/bbs"
 	"github.com/Ptt-official-app/go-pttbbs/cache"
 	"github.com/Ptt-official-app/go-pttbbs/cmbbs"
 	"github.com/Ptt-official-app/go-pttbbs/ptt"
@@ -77,8 +88,15 @@ func storedNow(u []byte) []byte {
 }
 
 func judgeAnswer(idx int, call string, u, pw []byte, before []byte, want, out string) {
+	hib := len(before) >= 2 && (before[0] >= 0x80 || before[1] >= 0x80)
 	if out == "PANIC" || out == "TIMEOUT" {
-		run.Fail(idx, "crash:login", fmt.Sprintf("%s(%q, %q): %s %s", call, u, pw, out, hx.LastPanic))
+		if !(hib && out == "PANIC") {
+			run.Fail(idx, "crash:login", fmt.Sprintf("%s(%q, %q): %s %s", call, u, pw, out, hx.LastPanic))
+		}
+		return
+	}
+	if hib && out == "ok" {
+		run.Fail(idx, "login:unverifiable-hash-accepted", fmt.Sprintf("%s(%q, %q) succeeded although the stored hash %q has a salt byte >= 0x80: crypt(3) of no password equals it", call, u, pw, before))
 		return
 	}
 	if want == "reject" && out == "ok" {
@@ -110,6 +128,9 @@ func execLogin(line string, nontrivial bool) (out string, idx int) {
 		if len(ws) != 2 {
 			return bad()
 		}
+		if loginEnv != nil {
+			_ = loginEnv.ResetSHM() // frees the session table (a full login takes one of 31 slots)
+		}
 		return "ok", run.Op(line, "ok", "reset", false)
 	case "sethash":
 		if len(ws) != 3 {
@@ -129,13 +150,14 @@ func execLogin(line string, nontrivial bool) (out string, idx int) {
 			return "ok"
 		})
 		return out, run.Op(line, out, "sethash:"+out, nontrivial)
-	case "login", "loginfull", "checkpw":
+	case "login", "loginfull", "checkpw", "blogin", "bcheckpw":
 		if len(ws) != 4 || !okWant(ws[3]) {
 			return bad()
 		}
 		u, pw := hx.UnHex(ws[1]), hx.UnHex(ws[2])
 		before := storedNow(u)
-		call := map[string]string{"login": "ptt.LoginQuery", "loginfull": "ptt.Login", "checkpw": "ptt.CheckPasswd"}[ws[0]]
+		call := map[string]string{"login": "ptt.LoginQuery", "loginfull": "ptt.Login", "checkpw": "ptt.CheckPasswd",
+			"blogin": "bbs.Login", "bcheckpw": "bbs.CheckPasswd"}[ws[0]]
 		out = hx.Call(func() string {
 			var err error
 			switch ws[0] {
@@ -143,6 +165,10 @@ func execLogin(line string, nontrivial bool) (out string, idx int) {
 				_, _, err = ptt.LoginQuery(toUserID(u), append([]byte{}, pw...), loginIP)
 			case "loginfull":
 				_, _, err = ptt.Login(toUserID(u), append([]byte{}, pw...), loginIP)
+			case "blogin":
+				_, err = bbs.Login(string(u), string(pw), "127.0.0.1")
+			case "bcheckpw":
+				err = bbs.CheckPasswd(bbs.UUserID(string(u)), string(pw), "127.0.0.1")
 			default:
 				err = ptt.CheckPasswd(toUserID(u), append([]byte{}, pw...), loginIP)
 			}
@@ -154,7 +180,7 @@ func execLogin(line string, nontrivial bool) (out string, idx int) {
 		idx = run.Op(line, out, ws[0]+":"+ws[3]+":"+out, nontrivial)
 		judgeAnswer(idx, call, u, pw, before, ws[3], out)
 		return
-	case "chpw":
+	case "chpw", "bchpw":
 		if len(ws) != 7 || !okWant(ws[6]) {
 			return bad()
 		}
@@ -170,13 +196,24 @@ func execLogin(line string, nontrivial bool) (out string, idx int) {
 		before := storedNow(u)
 		rand.Seed(seed) //nolint:staticcheck
 		out = hx.Call(func() string {
-			if err := ptt.ChangePasswd(toUserID(u), append([]byte{}, old...), append([]byte{}, nw...), loginIP); err != nil {
+			var err error
+			if ws[0] == "bchpw" {
+				err = bbs.ChangePasswd(bbs.UUserID(string(u)), string(old), string(nw), "127.0.0.1")
+			} else {
+				err = ptt.ChangePasswd(toUserID(u), append([]byte{}, old...), append([]byte{}, nw...), loginIP)
+			}
+			if err != nil {
 				return "refused"
 			}
 			return "ok"
 		})
-		idx = run.Op(line, out, "chpw:"+ws[6]+":"+out, nontrivial)
-		judgeAnswer(idx, "ptt.ChangePasswd(old password)", u, old, before, ws[6], out)
+		idx = run.Op(line, out, ws[0]+":"+ws[6]+":"+out, nontrivial)
+		judgeAnswer(idx, map[string]string{"chpw": "ptt.ChangePasswd", "bchpw": "bbs.ChangePasswd"}[ws[0]]+"(old password)", u, old, before, ws[6], out)
+		if out != "ok" {
+			if after := storedNow(u); !bytes.Equal(after, before) {
+				run.Fail(idx, "chpw:record-changed-without-auth", fmt.Sprintf("ChangePasswd(%q, old %q, new %q) = %s, but the stored hash went from %q to %q", u, old, nw, out, before, after))
+			}
+		}
 		if out == "ok" && len(nw) > 0 && nw[0] != 0 {
 			// clause (b) at the caller: the hash stored by a successful change verifies the new password
 			if h := storedNow(u); h != nil {
@@ -207,7 +244,7 @@ func execLogin(line string, nontrivial bool) (out string, idx int) {
 
 type acct struct {
 	known  bool    // the stored hash was made from a known plaintext
-	locked bool    // the all-zero hash
+	locked bool    // the all-zero hash, or an arbitrary hash that no candidate of the pool verifies against
 	key    [8]byte // its effective key
 }
 
@@ -248,6 +285,14 @@ var loginPws = [][]byte{
 	[]byte("123123"), []byte("s3cr3t-9"), []byte("third-pw"), []byte("abcdefgh"), []byte("abcdefghXYZ"), []byte("abcdefgi"),
 	[]byte("\xe1bcdefgh"), []byte("abc\x00defg"), []byte("abc"), []byte("Abc"), []byte("p"), []byte("\x80"), {},
 	[]byte("\x00nul-first"), []byte("a-much-longer-password-0123456789"),
+}
+
+// passwords whose first eight bytes begin or end with (Unicode) white space, control bytes or a NUL: the string
+// entry points of the bbs layer must hand them to the check byte for byte.
+var spacePws = [][]byte{
+	[]byte("123123 "), []byte("123123\n"), []byte(" 123123"), []byte("123123\t"), []byte("123123\r\n"), []byte("123123\u00a0"),
+	[]byte("\u0085pw1"), []byte(" pw1"), []byte("pw3\n"), []byte("pw3"), []byte("pw1"), []byte("\x0bpw"), []byte("pw\x0c"),
+	[]byte("\u2003em"), []byte("a b c d "), []byte("pw\x00 x"), []byte("\x01\x02pw\x7f"), []byte("  "), []byte(" "),
 }
 
 type hist struct {
@@ -292,19 +337,55 @@ func (h *hist) setraw(u, hash []byte) {
 	out, _ := execLogin("sethash "+hx.Hex(u)+" "+hx.Hex(hash), true)
 	if out == "ok" {
 		if a := h.b[string(u)]; a != nil {
-			*a = acct{locked: bytes.Equal(hash, make([]byte, 14))}
+			// an all-zero or arbitrary hash: no candidate is to be accepted (a chance hit of a random 64-bit hash is
+			// out of reach; such hashes are drawn fresh, never derived from a pool password)
+			*a = acct{locked: true}
 		}
 	}
+}
+
+// junkHash: an arbitrary stored hash — salt bytes >= 0x80, non-alphabet 7-bit salts, NUL salts, damaged tails.
+func junkHash(r *hx.Rand) []byte {
+	h := r.Bytes(14, nil)
+	switch r.Intn(7) {
+	case 0:
+		h[0] |= 0x80
+	case 1:
+		h[1] |= 0x80
+	case 2:
+		h[0], h[1] = 0xff, 0xff
+	case 3: // 7-bit salt outside the alphabet, alphabet body
+		h[0], h[1] = byte(1+r.Intn(45)), byte(123+r.Intn(5))
+		for i := 2; i < 13; i++ {
+			h[i] = alphabet[r.Intn(64)]
+		}
+		h[13] = 0
+	case 4: // NUL salt bytes
+		h[0], h[1] = 0, byte(r.Intn(2))*alphabet[r.Intn(64)]
+	case 5: // a well-formed alphabet hash of nothing we know
+		for i := 0; i < 13; i++ {
+			h[i] = alphabet[r.Intn(64)]
+		}
+		h[13] = 0
+	default: // a real hash with the high bit set on a salt byte
+		g := []byte(libcCrypt(genKeyPw(r), genSalt(r)))
+		copy(h, g)
+		h[13] = 0
+		h[r.Intn(2)] |= 0x80
+	}
+	return h
 }
 
 func (h *hist) login(kind string, u, pw []byte) {
 	execLogin(kind+" "+hx.Hex(u)+" "+hx.Hex(pw)+" "+h.b.want(u, pw), true)
 }
 
-func (h *hist) chpw(u, old, nw []byte) {
+func (h *hist) chpw(u, old, nw []byte) { h.chpwK("chpw", u, old, nw) }
+
+func (h *hist) chpwK(kind string, u, old, nw []byte) {
 	seed := int64(h.r.U64() >> 1)
 	w := h.b.want(u, old)
-	out, _ := execLogin(fmt.Sprintf("chpw %s %s %s %d %d %s", hx.Hex(u), hx.Hex(old), hx.Hex(nw), numFor(seed), seed, w), true)
+	out, _ := execLogin(fmt.Sprintf("%s %s %s %s %d %d %s", kind, hx.Hex(u), hx.Hex(old), hx.Hex(nw), numFor(seed), seed, w), true)
 	if out == "ok" {
 		h.b.setPlain(u, nw)
 	}
@@ -312,7 +393,10 @@ func (h *hist) chpw(u, old, nw []byte) {
 
 func (h *hist) stored(u []byte) { execLogin("stored "+hx.Hex(u), false) }
 
-var loginOps = map[string]bool{"reset": true, "sethash": true, "login": true, "loginfull": true, "checkpw": true, "chpw": true, "stored": true}
+var loginOps = map[string]bool{"reset": true, "sethash": true, "login": true, "loginfull": true, "checkpw": true, "chpw": true, "stored": true,
+	"blogin": true, "bcheckpw": true, "bchpw": true}
+
+var loginEnv *bbsenv.Env
 
 func replayAny(lines []string) {
 	needEnv := false
@@ -328,6 +412,7 @@ func replayAny(lines []string) {
 			os.Exit(2)
 		}
 		defer env.Close()
+		loginEnv = env
 	}
 	for _, l := range lines {
 		if ws := strings.Fields(l); len(ws) > 0 && loginOps[ws[0]] {
@@ -345,6 +430,7 @@ func loginMain() {
 		os.Exit(2)
 	}
 	defer env.Close()
+	loginEnv = env
 	r := run.R
 	run.Rule = "histories on a private BBSHOME over 8 existing users and a pool of 15 passwords (shared 8-byte prefix, bit-7 twin, embedded / leading NUL, empty, long): " +
 		"every history starts with reset + a hash for each user made outside the code (libc, alphabet salt) or by GenPasswd; enumerated shapes, smallest first, for every ordered pair of distinct-key passwords: " +
@@ -439,6 +525,54 @@ func loginMain() {
 		}
 	}
 
+	// bbs layer: the string-taking entry points with white space / control bytes at the ends of the first eight bytes,
+	// both as the stored password (set through bbs.ChangePasswd) and as the candidate
+	base := []byte("123123")
+	nS := len(spacePws)
+	for i := 0; i < nS; i++ {
+		sp := spacePws[i]
+		u := loginUsers[i%len(loginUsers)]
+		h := newHist(r, [][]byte{u})
+		h.sethash(u, base)
+		h.login("blogin", u, base)
+		h.login("blogin", u, sp) // a candidate that differs from the stored one by white space only
+		h.login("bcheckpw", u, sp)
+		h.chpwK("bchpw", u, sp, sp) // not authorised by the white-space variant
+		h.chpwK("bchpw", u, base, sp)
+		h.login("blogin", u, sp) // the password just set logs in, byte for byte
+		h.login("bcheckpw", u, sp)
+		h.login("blogin", u, bytes.TrimSpace(sp))
+		h.login("blogin", u, base)
+		if th || i%3 == 0 {
+			for _, q := range spacePws {
+				h.login("blogin", u, q)
+			}
+		}
+	}
+
+	// arbitrary stored hashes at every caller: accepted only if crypt(candidate, hash) == hash; a panic is a refusal
+	nJ := 40
+	if th {
+		nJ = 1200
+	}
+	for i := 0; i < nJ; i++ {
+		u := loginUsers[i%len(loginUsers)]
+		h := newHist(r, [][]byte{u})
+		h.sethash(u, base)
+		h.login("login", u, base)
+		h.setraw(u, junkHash(r))
+		pw := loginPws[r.Intn(len(loginPws))]
+		h.login("checkpw", u, pw)
+		h.login("bcheckpw", u, base)
+		h.chpw(u, pw, []byte("taken-over"))
+		h.stored(u)
+		h.chpwK("bchpw", u, base, []byte("taken-over"))
+		h.login("login", u, []byte("taken-over"))
+		h.login("login", u, pw)
+		h.login("blogin", u, base)
+		h.stored(u)
+	}
+
 	// random histories
 	nH := 60
 	if th {
@@ -460,18 +594,24 @@ func loginMain() {
 			u := us[r.Intn(len(us))]
 			pw := loginPws[r.Intn(len(loginPws))]
 			switch x := r.Intn(100); {
-			case x < 45:
+			case x < 38:
 				h.login("login", u, pw)
+			case x < 45:
+				h.login([]string{"blogin", "bcheckpw"}[r.Intn(2)], u, spacePws[r.Intn(len(spacePws))])
 			case x < 55:
-				h.login("checkpw", u, pw)
+				h.login([]string{"checkpw", "bcheckpw"}[r.Intn(2)], u, pw)
 			case x < 70:
 				h.sethash(u, pw)
-			case x < 88:
+			case x < 82:
 				h.chpw(u, pw, loginPws[r.Intn(len(loginPws))])
+			case x < 88:
+				h.chpwK("bchpw", u, pw, spacePws[r.Intn(len(spacePws))])
 			case x < 92:
 				h.stored(u)
-			case x < 95:
+			case x < 94:
 				h.setraw(u, make([]byte, 14))
+			case x < 95:
+				h.setraw(u, junkHash(r))
 			case x < 97: // a variant of the password: same or different effective key
 				h.login("login", u, variant(r, pw))
 			default:
